@@ -11,7 +11,7 @@ THEOREMS = [f"Nice.Props.C03.{t}" for t in (
     "Nice.Props.C03Flow.C03_inbound_effects_need_auth", "Nice.Props.C03Flow.C03_discovery_agents_only_validate_responses",
     "Nice.Props.C03Flow.C03_inbound_consumes_control_traffic", "Nice.Props.C03Flow.summary_ok", "Nice.Flow.reach_sound",
     "Nice.Props.C04.C04_unmatched_is_response", "Nice.Props.C03Recv.C03_data_only_from_validated_source",
-    "Nice.Props.C03Recv.summary_ok"]
+    "Nice.Props.C03Recv.summary_ok", "Nice.Flow.run_exec"]
 TRUSTED = [
     "Lean 4 kernel; axioms propext, Classical.choice, Quot.sound only (audited every run)",
     "Nice/Model/Gate.lean: hand-written status->effect table of conn_check_handle_inbound_stun and the demultiplexer of "
